@@ -14,7 +14,6 @@ import (
 	"os"
 	"path/filepath"
 	"runtime/debug"
-	"runtime/pprof"
 	"sort"
 	"strconv"
 	"strings"
@@ -196,7 +195,7 @@ func passes(quick bool) []passA {
 	if quick {
 		return []passA{{[]int{2, 11, 8, 1}, 5}}
 	}
-	return []passA{{[]int{2, 11, 8, 1}, 6}, {[]int{2, 10}, 7}}
+	return []passA{{[]int{2, 11, 8, 1}, 6}, {[]int{2, 10}, 7}, {[]int{2, 11, 8, 1, 10, 6}, 5}}
 }
 
 func phaseA(c *lib.Ctx, unit *int) {
@@ -674,11 +673,6 @@ func setup() {
 func runAll(c *lib.Ctx) {
 	setup()
 	defer vtime.SetVirtual(time.Time{})
-	if pf := os.Getenv("C07_PROF"); pf != "" {
-		f, _ := os.Create(pf)
-		_ = pprof.StartCPUProfile(f)
-		defer pprof.StopCPUProfile()
-	}
 	unit := 0
 	only := os.Getenv("C07_PHASE") // development switch
 	start := time.Now()
@@ -784,7 +778,7 @@ func main() {
 				"phaseA_units":                  m.Distinct["phaseA_units"],
 				"phaseA_units_completed":        m.Counters["phaseA_units_completed"] + m.Counters["units_skipped_first_op_is_noop"],
 				"note_units":                    "phase A is dealt to workers as units (config, first operation); the bfs_* notes of the library are relative to a unit (history depth = note + 1); a unit whose first operation is a no-op on the empty log is skipped because [no-op]+h reaches what h reaches",
-				"rule": "phase A: BFS over histories of record(kind)/flush/rotate/clear/restart/enabled-toggle/anonymize-toggle on the real queryLog (fresh temp dir and virtual clock per history, records 1 s apart, the asynchronous flush is awaited after every operation); a state is (entry kinds and stored client address per tier, toggles, mem_size, file_enabled), absolute timestamps are not in the key (only their order influences the code, all stored lines have the same timestamp width); after every transition the unfiltered GET /control/querylog must equal reverse(rotated++current++memory) field by field, every stored line must survive decode+encode, and paging by cursor and by offset (limit 1,2) must partition the sequence. non-trivial (phase A) = transition that changes the stored layout or a toggle. phase B: full product of limit x offset x older_than x search x response_status on fixed layouts against an independent predicate; non-trivial (phase B) = distinct non-empty proper sub-sequence returned by an exactly-checked query",
+				"rule":                          "phase A: BFS over histories of record(kind)/flush/rotate/clear/restart/enabled-toggle/anonymize-toggle on the real queryLog (fresh temp dir and virtual clock per history, records 1 s apart, the asynchronous flush is awaited after every operation); a state is (entry kinds and stored client address per tier, toggles, mem_size, file_enabled), absolute timestamps are not in the key (only their order influences the code, all stored lines have the same timestamp width); after every transition the unfiltered GET /control/querylog must equal reverse(rotated++current++memory) field by field, every stored line must survive decode+encode, and paging by cursor and by offset (limit 1,2) must partition the sequence. non-trivial (phase A) = transition that changes the stored layout or a toggle. phase B: full product of limit x offset x older_than x search x response_status on fixed layouts against an independent predicate; non-trivial (phase B) = distinct non-empty proper sub-sequence returned by an exactly-checked query",
 			}
 		},
 		Assumptions: []string{
